@@ -89,3 +89,61 @@ def install():
     LOG_RESOLVE = False
     OBJ_HOOK = None
     return m
+
+
+# ---------------------------------------------------------------------------------------------
+# importable modules whose top-level code takes a while (scheduler points inside it), and a cooperative
+# version of the per-module import lock so that a client waiting for another client's import is
+# parked by the simulator instead of blocking for real
+
+import importlib.abc
+import importlib.machinery
+
+
+class _SlowLoader(importlib.abc.Loader):
+    def create_module(self, spec):
+        return None
+
+    def exec_module(self, module):
+        name = module.__name__
+        LOG.append([_who(), 'module-exec-start', name, []])
+        module.first_part = 'ready'
+        sched.external('import-mid1:' + name)
+        module.value = 'V' + name
+        sched.external('import-mid2:' + name)
+        module.target = _make_f(name)
+        sched.external('import-mid3:' + name)
+        LOG.append([_who(), 'module-exec-end', name, []])
+
+
+class _SlowFinder(importlib.abc.MetaPathFinder):
+    def find_spec(self, fullname, path=None, target=None):
+        if fullname.startswith('simslow_') and '.' not in fullname:
+            return importlib.machinery.ModuleSpec(fullname, _SlowLoader())
+        return None
+
+
+def install_slow_modules():
+    import importlib._bootstrap as ib
+    import _thread
+    if not any(isinstance(f, _SlowFinder) for f in sys.meta_path):
+        sys.meta_path.insert(0, _SlowFinder())
+    if getattr(ib._ModuleLock.acquire, '_aysim', False):
+        return
+    orig = ib._ModuleLock.acquire
+
+    def coop_acquire(self):
+        s = sched.CURRENT
+        if s is None or not s.is_client_thread():
+            return orig(self)
+        tid = _thread.get_ident()
+        while True:
+            with self.lock:
+                if self.count == [] or self.owner == tid:
+                    self.owner = tid
+                    self.count.append(True)
+                    return True
+            # held by a parked client: let the simulator run somebody else, then try again
+            s.yield_blocked('import-lock:' + self.name)
+    coop_acquire._aysim = True
+    ib._ModuleLock.acquire = coop_acquire
